@@ -12,6 +12,7 @@ from ..facts import has_fact, path_facts
 from ..flow import backward_slice
 from ..rules import structure
 from ..rules.commute import column_effect
+from ..rules import optional as optional_rules
 from .common import IT_ENGINE, LEAF, MARKER, OPREL, Ctx, describe, new_run
 
 LEVEL = "other"
@@ -36,6 +37,7 @@ def check(model, tier):
     run, ctx = new_run("C06", tier, LEVEL, model, "Flag definitions and consumers, delegation of node bounds, provenance of bound formulas and column effects are decided; numeric truth of the formulas is not.")
     m, k = model, ctx.k
     structure.r06_1_flags(ctx)
+    optional_rules.r_optional_truthiness(ctx, "R06.5")
 
     run.rule("R06.2", "node metadata delegates: operation nodes ask their operation with their own operand(s) in order; markers delegate to their target; leaves validate max_rows >= min_rows", 10)
     for cname, operands in (("UnaryOperationRelation", ["self.target"]), ("BinaryOperationRelation", ["self.lhs", "self.rhs"])):
@@ -147,6 +149,24 @@ def check(model, tier):
             run.ok("R06.3", f"{cname}.applied_min_rows:zero")
         else:
             run.fail("R06.3", f"{cname}.applied_min_rows:zero", f"a {cname.lower()} can remove every row, so its lower bound must be 0", fi=f)
+    jm = ctx.op_class("Join").methods.get("applied_max_rows")
+    jps = [q for q in jm.params if q != "self"]
+    for i, p in enumerate(ctx.paths(jm)):
+        if p.outcome != "return":
+            continue
+        v = p.value
+        facts = path_facts(p)
+        inst = f"Join.applied_max_rows:path{i}"
+        if isinstance(v, ast.Constant) and v.value == 0:
+            ok = any(f.kind == "OR" or (f.kind == "EQ" and f.polarity and "0" in f.args) for f in facts)
+        elif isinstance(v, ast.Constant) and v.value is None:
+            ok = any(f.kind == "OR" or (f.kind == "IS" and f.polarity and "None" in f.args) for f in facts)
+        else:
+            ok = isinstance(v, ast.BinOp) and isinstance(v.op, ast.Mult) and {src(v.left), src(v.right)} == {f"{jps[0]}.max_rows", f"{jps[1]}.max_rows"}
+        if ok:
+            run.ok("R06.3", inst)
+        else:
+            run.fail("R06.3", inst, f"Join.applied_max_rows returns `{src(v)}`: relations are bags, so the only sound upper bounds are 0 (an empty operand), None (an unbounded one) or the product of both operands' max_rows", fi=jm, node=p.node, details=describe(p))
     sl = ctx.op_class("Slice")
     for meth in ("applied_min_rows", "applied_max_rows"):
         f = sl.methods.get(meth)
